@@ -77,8 +77,10 @@ def part_matcher(chk, replay_case=None):
     if replay_case is None:
         # Law_*: hostnames over {a, b, .}; Law_wide_*: hostnames that may also contain the rule characters ^ and $
         # (anything can come out of url.Hostname()), which makes the law's antecedent true far more often
-        for cfg in (["Law_quick.cfg", "Law_wide_quick.cfg", "Sem_quick.cfg", "Law_thorough.cfg"] if q else
-                    ["Law_quick.cfg", "Law_wide_quick.cfg", "Sem_quick.cfg", "Law_thorough.cfg", "Law_wide_thorough.cfg", "Sem_thorough.cfg", "Law_big.cfg"]):
+        # Law_case: rules and hostnames with an upper-case letter and a blank - the matcher compares bytes, so the
+        # law must (and does) hold there as well; it is what entitles RelayPolicy to judge the RAW pattern string
+        for cfg in (["Law_wide_quick.cfg", "Law_case.cfg", "Sem_quick.cfg"] if q else
+                    ["Law_quick.cfg", "Law_wide_quick.cfg", "Law_case.cfg", "Sem_quick.cfg", "Law_thorough.cfg", "Law_wide_thorough.cfg", "Sem_thorough.cfg", "Law_big.cfg"]):
             r = _tlc(chk, "Matcher", cfg, keep_prints=False, dump_trace=True)
             chk.note("TLC Matcher %s: %d distinct states, error=%s (%.0fs)" % (cfg, r.distinct, r.error, r.wall))
             if r.error:
@@ -95,7 +97,12 @@ def part_matcher(chk, replay_case=None):
         if rp.error or rm.error:
             chk.fail("case emission failed: %s %s" % (rp.error, rm.error))
             return
-        pairs, members = rp.prints, rm.prints
+        rpc = _tlc(chk, "Matcher", "Pairs_case.cfg", workers=1)
+        rmc = _tlc(chk, "Matcher", "Members_case.cfg", workers=1)
+        if rpc.error or rmc.error:
+            chk.fail("case emission failed: %s %s" % (rpc.error, rmc.error))
+            return
+        pairs, members = rp.prints + rpc.prints, rm.prints + rmc.prints
         chk.note("TLC emitted %d (rule, rule) and %d (rule, hostname) pairs" % (len(pairs), len(members)))
         if len(pairs) < 7000 or len(members) < 3000:
             chk.fail("vacuous: only %d / %d pairs emitted" % (len(pairs), len(members)))
@@ -217,7 +224,9 @@ def part_broker(chk, replay_case=None):
         if r.error != "invariant:HistoryIndependent":
             chk.fail("self-check: PolicyMC_history_raw.cfg should violate HistoryIndependent, TLC says %s" % r.error)
             return
-        cases = _policy_cases(chk, "broker")
+        # poll patterns range over the rule alphabet plus an upper-case letter, space and tab; thorough also
+        # lets the allowed pattern contain upper case and blanks
+        cases = _policy_cases(chk, "broker" if chk.tier == "quick" else "broker_wide")
         if cases is None:
             return
         g = _tlc(chk, "RelayPolicy", "PolicyGen_history.cfg", workers=1)
@@ -227,7 +236,7 @@ def part_broker(chk, replay_case=None):
         hist = g.prints
         nrej = sum(1 for c in cases if c["reject"])
         chk.note("TLC emitted %d broker policy cases (%d must be rejected) and %d two-poll histories" % (len(cases), nrej, len(hist)))
-        if len(cases) < 5000 or nrej < 1000 or nrej == len(cases) or len(hist) < 500:
+        if len(cases) < 20000 or nrej < 1000 or nrej == len(cases) or len(hist) < 1500 or not any(c["present"] and ("A" in c["value"] or " " in c["value"] or "\t" in c["value"]) for c in cases):
             chk.fail("vacuous broker policy enumeration: %d cases, %d rejects, %d histories" % (len(cases), nrej, len(hist)))
             return
         chk.sample({"broker_poll": next(c for c in cases if c["reject"] and not c["present"] and len(c["allowed"]) > 1)})
@@ -330,7 +339,7 @@ def run(chk, args):
                        "rejected (and was seen rejected explicitly and unregistered). proxy: every relay-URL case is one real "
                        "runSession; non-trivial = the URL is forbidden for this pattern/flag")
     chk.assumptions += [
-        "rules range over the alphabet {^, $, a, .}, hostnames over {a, b, .} and {a, b, ., ^, $}; the matcher treats all bytes other than a leading ^ and a trailing $ alike",
+        "rules range over the alphabets {^, $, a, .} and {^, $, a, A, blank}, hostnames over {a, b, .}, {a, b, ., ^, $} and {a, A, blank, .}; poll patterns over {^, $, a, ., A, space, tab}; the matcher treats all bytes other than a leading ^ and a trailing $ alike",
         "broker part: polls that need not be rejected are only checked to be registered (they wait 10 s of real time for a client and are abandoned)",
         "proxy part binds the accept/refuse decision of runSession; the TCP-level observation of the dial is the rig part (lib/checks/c06_proxy.py, DESIGN C06 (d))",
     ]
